@@ -290,7 +290,8 @@ impl<'a> Parser<'a> {
         next: F,
     ) -> Result<ExpressionList, ParseError<'a>> {
         let first = next(self)?.into();
-        let rest = if self.parsing_list {
+        let outer = self.parsing_list;
+        let rest = if outer {
             Vec::new()
         } else {
             self.parsing_list = true; // nested lists are not allowed
@@ -308,7 +309,7 @@ impl<'a> Parser<'a> {
             }
             exprs
         };
-        self.parsing_list = false;
+        self.parsing_list = outer;
         Ok(ExpressionList { first, rest })
     }
 
